@@ -21,11 +21,11 @@ def _key(name, src, ext, directives, cflags, cplus, options=None):
     return h.hexdigest()[:20]
 
 
-def build_ext(name, src, ext=".py", directives=None, cflags=(), cplus=False, ldflags=(), keep_c=False, timeout=600, options=None, extra_files=None):
+def build_ext(name, src, ext=".py", directives=None, cflags=(), cplus=False, ldflags=(), keep_c=False, timeout=600, options=None, extra_files=None, split_link=False):
     """Cythonize src (module `name`) with the staged compiler in a subprocess, gcc it, return path to .so.
     Raises core.HarnessError with the tool output on failure."""
     stage, th = core.stage()
-    key = _key(name, src + repr(sorted((extra_files or {}).items())), ext, directives, tuple(cflags) + tuple(ldflags), cplus, options)
+    key = _key(name, src + repr(sorted((extra_files or {}).items())) + repr(split_link), ext, directives, tuple(cflags) + tuple(ldflags), cplus, options)
     d = os.path.join(core.workdir(), "build", th, key)
     so = os.path.join(d, name + ".so")
     if os.path.exists(so):
@@ -58,8 +58,17 @@ def build_ext(name, src, ext=".py", directives=None, cflags=(), cplus=False, ldf
         raise CythonizeError("cython failed for %s:\n%s\n%s" % (name, r.stdout[-1500:], r.stderr[-1500:]))
     inc = sysconfig.get_paths()["include"]
     cc = "g++" if cplus else "gcc"
-    cmd = [cc, "-shared"] + BASE_CFLAGS + list(cflags) + ["-I", inc, cfile, "-o", os.path.join(tmp, name + ".so")] + list(ldflags)
-    r = subprocess.run(cmd, capture_output=True, text=True, timeout=timeout)
+    if split_link:
+        # compile with all flags (e.g. -fopenmp for the pragmas), link with ldflags only (no libgomp)
+        obj = os.path.join(tmp, name + ".o")
+        cmd = [cc, "-c"] + BASE_CFLAGS + list(cflags) + ["-I", inc, cfile, "-o", obj]
+        r = subprocess.run(cmd, capture_output=True, text=True, timeout=timeout)
+        if r.returncode == 0:
+            cmd = [cc, "-shared", obj, "-o", os.path.join(tmp, name + ".so")] + list(ldflags)
+            r = subprocess.run(cmd, capture_output=True, text=True, timeout=timeout)
+    else:
+        cmd = [cc, "-shared"] + BASE_CFLAGS + list(cflags) + ["-I", inc, cfile, "-o", os.path.join(tmp, name + ".so")] + list(ldflags)
+        r = subprocess.run(cmd, capture_output=True, text=True, timeout=timeout)
     if r.returncode != 0:
         shutil.rmtree(tmp, ignore_errors=True)
         raise core.HarnessError("C compile failed for %s:\n%s" % (name, r.stderr[-3000:]))
@@ -110,3 +119,26 @@ def build_many(specs, jobs=None):
             except core.HarnessError as e:
                 out.append(e)
         return out
+
+
+def build_simgomp():
+    """The deterministic OpenMP runtime shim as a shared library (so that ctypes and the workload share one instance)."""
+    src = os.path.join(os.path.dirname(os.path.abspath(__file__)), "simgomp.c")
+    with open(src, "rb") as f:
+        key = hashlib.sha256(f.read()).hexdigest()[:16]
+    d = os.path.join(core.workdir(), "build", "simgomp-" + key)
+    so = os.path.join(d, "libsimgomp.so")
+    if os.path.exists(so):
+        return so
+    tmp = d + ".tmp%d" % os.getpid()
+    os.makedirs(tmp, exist_ok=True)
+    inc = sysconfig.get_paths()["include"]
+    r = subprocess.run(["gcc", "-shared", "-fPIC", "-O1", "-g", "-w", "-I", inc, src, "-o", os.path.join(tmp, "libsimgomp.so"), "-lpthread"],
+                       capture_output=True, text=True)
+    if r.returncode != 0:
+        raise core.HarnessError("simgomp build failed:\n%s" % r.stderr[-2000:])
+    try:
+        os.rename(tmp, d)
+    except OSError:
+        shutil.rmtree(tmp, ignore_errors=True)
+    return so
